@@ -490,7 +490,10 @@ def _strload(val: str | bytes) -> PythonValueT:
         return compat.json.loads(val)
 
     decoded = decode(val)
-    with contextlib.suppress(ValueError, TypeError, SyntaxError):
+    # All the errors `ast.literal_eval` is documented to raise on malformed input.
+    with contextlib.suppress(
+        ValueError, TypeError, SyntaxError, MemoryError, RecursionError
+    ):
         return ast.literal_eval(decoded)
 
     return decoded
